@@ -138,9 +138,17 @@ func genRw(r *rand.Rand, t, rel string, depth int, usedThis *bool) *Rewrite {
 		}
 		return rw
 	case x < 7:
-		return &Rewrite{K: "inter", Ch: []*Rewrite{genRw(r, t, rel, depth-1, usedThis), genRw(r, t, rel, depth-1, usedThis)}}
+		a, b := genRw(r, t, rel, depth-1, usedThis), genRw(r, t, rel, depth-1, usedThis)
+		for i := 0; i < 3 && a.String() == b.String(); i++ { // identical operands are legal but rare in practice
+			b = genRw(r, t, rel, depth-1, usedThis)
+		}
+		return &Rewrite{K: "inter", Ch: []*Rewrite{a, b}}
 	default:
-		return &Rewrite{K: "diff", Base: genRw(r, t, rel, depth-1, usedThis), Sub: genRw(r, t, rel, depth-1, usedThis)}
+		a, b := genRw(r, t, rel, depth-1, usedThis), genRw(r, t, rel, depth-1, usedThis)
+		for i := 0; i < 3 && a.String() == b.String(); i++ {
+			b = genRw(r, t, rel, depth-1, usedThis)
+		}
+		return &Rewrite{K: "diff", Base: a, Sub: b}
 	}
 }
 
@@ -320,6 +328,15 @@ func GenTuples(r *rand.Rand, m *Model, opts GenOpts) []Tuple {
 		t Tuple
 	}
 	var valid []Tuple
+	// dense cases use two ids per type so that chains, diamonds and cycles are likely
+	ids := IDs
+	if chance(r, 0.6) {
+		ids = map[string][]string{}
+		for t, l := range IDs {
+			ids[t] = l[:2]
+		}
+	}
+	IDs := ids
 	for _, def := range m.Rels {
 		for _, x := range def.Restr {
 			for _, oid := range IDs[def.T] {
